@@ -89,6 +89,7 @@ def run_scenario(scen, repo=None):
         pass
     obs['exec'] = _read_lines(os.path.join(tmpdir, 'exec.log'))
     obs['exitcb'] = _read_lines(os.path.join(tmpdir, 'exitcb.log'))
+    obs['events'] = _read_lines(os.path.join(tmpdir, 'events.log'))
     try:
         with open(os.path.join(tmpdir, 'stacks.txt')) as f:
             obs['stacks'] = f.read()[-6000:]
